@@ -17,6 +17,7 @@
 from common import *
 import q, enc, mech
 from enc import *
+import wl
 
 
 def run(ctx):
@@ -41,6 +42,7 @@ def run(ctx):
         extraction(ctx, crate, crs, tag)
         assertions(ctx, crate, crs, tag)
         mech.drain_complete(ctx, "encoding", crate, crs, tag)
+        ctx.guard("watch-list" + tag, wl.run, ctx, crate, crs, tag)
         # the candidate lists the clauses are built from are the provider's (filter flag / map agreement, memoised under the right key)
         mech.memo_check(ctx, "candidate-lists", crate, crs, tag)
         mech.filter_siblings(ctx, crate, crs, tag, rule="candidate-lists")
